@@ -7,3 +7,4 @@ import JaxVerif.Properties.C13
 #print axioms JV.C13_annotation_error
 #print axioms JV.C13_generated_good
 #print axioms JV.C13_source_wrapper
+#print axioms JV.C13_source_blame
